@@ -43,6 +43,8 @@ type verifC17Gen struct {
 	Kill  string `json:"kill"` // "Point:occ" | "time:<us>" | "" (clean close)
 	Nops  int    `json:"nops"`
 	Clean bool   `json:"clean"`
+	// CommitUS overrides the run's CommitEvery for this generation (0 = run default)
+	CommitUS int `json:"commit_us,omitempty"`
 }
 
 type verifC17Run struct {
@@ -91,7 +93,10 @@ func verifC17RunOne(base string, run verifC17Run) (out verifC17Outcome) {
 			return false
 		}
 		if st.Tail != 0 {
+			// the kill cut the last write(2) inside a record: fsbinlog's subject (C18), not judged here
 			out.torn++
+			verifC17Append(out.trace, "Torn", "tail", st.Tail, "gen", gen)
+			return false
 		}
 		verifC17Append(out.trace, "Disk", "dboff", st.DbOff, "dbrows", st.DbRows, "recs", st.Recs,
 			"tail", st.Tail, "status", status, "gen", gen)
@@ -114,6 +119,10 @@ func verifC17RunOne(base string, run verifC17Run) (out verifC17Outcome) {
 		if g.Clean {
 			clean = "1"
 		}
+		commitUS := run.CommitUS
+		if g.CommitUS != 0 {
+			commitUS = g.CommitUS
+		}
 		big := "0"
 		if run.Big {
 			big = "1"
@@ -122,7 +131,7 @@ func verifC17RunOne(base string, run verifC17Run) (out verifC17Outcome) {
 			"VERIF_C17_MODE="+run.Mode, fmt.Sprintf("VERIF_C17_GEN=%d", gen),
 			fmt.Sprintf("VERIF_C17_FIRSTID=%d", gi*64+1), fmt.Sprintf("VERIF_C17_NOPS=%d", g.Nops),
 			fmt.Sprintf("VERIF_C17_WSEED=%d", run.WSeed), "VERIF_C17_CLEAN="+clean, "VERIF_C17_BIG="+big,
-			fmt.Sprintf("VERIF_C17_COMMIT_US=%d", run.CommitUS), "VERIF_C17_KILL="+g.Kill)
+			fmt.Sprintf("VERIF_C17_COMMIT_US=%d", commitUS), "VERIF_C17_KILL="+g.Kill)
 		cmd.Env = env
 		var buf bytes.Buffer
 		cmd.Stdout, cmd.Stderr = &buf, &buf
@@ -217,7 +226,12 @@ func verifC17Plan(seed int64, nocc, nrand int, thorough bool) []verifC17Run {
 			for occ := 1; occ <= nocc; occ++ {
 				// generation 1 leaves a binlog that is ahead of the database, generation 2 dies
 				// while re-reading it, generation 3 re-reads again and dies while serving
-				gens := []verifC17Gen{{Kill: anyPoint([]string{"Ret", "AppendA", "BlCommitDone", "View", "End"}), Nops: nops()},
+				// (no timer commit in generation 1 of every other run, so that all of it is re-read)
+				g1commit := 0
+				if rng.Intn(2) == 0 {
+					g1commit = 5000000
+				}
+				gens := []verifC17Gen{{Kill: anyPoint([]string{"Ret", "AppendA", "BlCommitDone", "View", "End"}), Nops: nops(), CommitUS: g1commit},
 					{Kill: fmt.Sprintf("%s:%d", p, occ), Nops: nops()},
 					{Kill: anyPoint(verifC17ServePoints), Nops: nops()}}
 				add(mode, "replay/"+p, append(gens, tail()...))
